@@ -28,6 +28,10 @@ INSTS = [('int8_t', 'uint8_t', 1), ('uint8_t', 'uint8_t', 0), ('int16_t', 'uint1
          ('int32_t', 'uint32_t', 1), ('uint32_t', 'uint32_t', 0), ('int64_t', 'uint64_t', 1), ('uint64_t', 'uint64_t', 0)]
 
 
+# quick tier: a narrow signed, a mid signed and the wide unsigned index type; thorough: all eight
+QUICK_INSTS = [INSTS[0], INSTS[4], INSTS[7]]
+
+
 def inst_defines(t, u, signed):
     return {'IntegerT': t, 'U': u, 'size_type': 'int64_t' if signed else 'uint64_t', 'IS_SIGNED': str(signed)}
 
@@ -95,7 +99,7 @@ def build(ctx):
         units.append(Unit('for_each_n.' + fn, 'intwp', 'specs/c17_foreach.c', fn, timeout=120, expect=exp,
                           replay=replay_args('fe') if fn == 'fe_derive' else None))
     mapper_pieces(ctx)
-    insts = INSTS if ctx.tier == 'thorough' else [INSTS[0], INSTS[1], INSTS[4], INSTS[6], INSTS[7]]
+    insts = INSTS if ctx.tier == 'thorough' else QUICK_INSTS
     for t, uu, sg in insts:
         d = inst_defines(t, uu, sg)
         common = dict(defines=d, inst=t, timeout=120, signed_wrap=True, nonprop_cls=['overflow', 'conversion'])
